@@ -327,6 +327,111 @@ void h_parse_objid(void)
 #endif
 }
 #endif
+
+/* ======================= harness-mode targets (plain cbmc on the real bodies, all loops have constant bounds) ======================= */
+#ifdef T_INT_SHIFT_UB
+/* compiled with -DCV_SHIFT_UB: the extraction pragma is off, so the signed-overflow / undefined-shift checks see
+ * `value = (value << 8) | *bufp++` -- expected to FAIL (ISO C undefined behaviour, known finding, not a memory access) */
+void h_int_shift_ub(void)
+{
+    u_char buf[8]; int dl = 7, v; u_int uv; u_char type;
+    asn_parse_int(buf, &dl, &type, &v, sizeof(v));
+    dl = 7;
+    asn_parse_unsigned_int(buf, &dl, &type, &uv, sizeof(uv));
+    u_char out[16]; int odl = 16, x;
+    asn_build_int(out, &odl, type, &x, sizeof(x));      /* `integer <<= 8` on a negative int: same class */
+}
+#endif
+
+#ifdef T_INT_EXACT
+/* exact decoded value against the two's complement spec (the dfcc targets prove the window, not the value) */
+void h_int_exact(void)
+{
+    u_char buf[12]; int V, dl, v = 12345; u_int uv = 12345; u_char type; _Bool which;
+    __CPROVER_assume(0 <= V && V <= 11);
+    dl = V;
+    if (which) {
+        u_char *r = asn_parse_int(buf, &dl, &type, &v, sizeof(v));
+        __CPROVER_assert((r != NULL) == sp_tlv_ok(buf, V, 4), "ensures: INTEGER accepted iff the TLV fits in V bytes and has at most 4 content octets");
+        u_int n = sp_len_val(buf + 1);
+#ifdef TWIN_EXACT
+        __CPROVER_assert(!(r != NULL && n >= 1) || v != sp_int(buf + sp_hdr(buf), n), "ensures: TWIN (negated) exact value");
+#else
+        __CPROVER_assert(!(r != NULL && n >= 1) || v == sp_int(buf + sp_hdr(buf), n), "ensures: decoded value == big-endian two's complement of the content octets");
+#endif
+        __CPROVER_assert(!(r != NULL && n == 0) || v == 0 || v == -1, "ensures: zero-length INTEGER decodes to 0 or -1 (depends on the byte after the TLV)");
+        __CPROVER_assert(r != NULL || v == 12345, "ensures: output untouched on error");
+#ifdef REACH
+        __CPROVER_assert(!(r != NULL && v == -129), "reach: a negative two-octet value");
+        __CPROVER_assert(!(r != NULL && n == 0 && v == -1), "reach: zero-length INTEGER decoded as -1");
+        __CPROVER_assert(!(r == NULL), "reach: rejected");
+#endif
+    } else {
+        u_char *r = asn_parse_unsigned_int(buf, &dl, &type, &uv, sizeof(uv));
+        __CPROVER_assert((r != NULL) == sp_uint_ok(buf, V), "ensures: unsigned accepted iff the TLV fits and has <= 4 content octets, or 5 with a leading zero");
+        u_int n = sp_len_val(buf + 1);
+        __CPROVER_assert(!(r != NULL && n >= 1) || uv == (u_int)sp_int(buf + sp_hdr(buf), n), "ensures: decoded unsigned value == big-endian content octets (sign-extended when shorter than 4)");
+#ifdef REACH
+        __CPROVER_assert(!(r != NULL && n == 5 && uv == 0xFFFFFFFFu), "reach: five-octet unsigned value");
+#endif
+    }
+}
+#endif
+
+#ifdef T_ROUNDTRIP
+/* encode/decode round trip on the real encoders and parsers: length field, header, INTEGER, unsigned INTEGER */
+void h_roundtrip(void)
+{
+    u_char buf[16]; int dl, len, truth; u_char type, t2; u_int plen; unsigned char which;
+    if (which == 0) {           /* asn_build_length -> asn_parse_length */
+        dl = 16;
+        __CPROVER_assume(0 <= len && len <= 0xFFFF);
+        u_char *e = asn_build_length(buf, &dl, len, truth);
+        __CPROVER_assert(e != NULL && e - buf == 16 - dl && e - buf <= 3, "round trip: length field built in at most 3 octets, *datalength reduced by exactly that");
+        u_char *r = asn_parse_length(buf, &plen);
+        __CPROVER_assert(r == e && plen == (u_int)len, "round trip: parse_length(build_length(n)) == n, same extent");
+#ifdef REACH
+        __CPROVER_assert(!(len == 0x1234 && truth), "reach: two-octet length");
+#endif
+    } else if (which == 1) {    /* asn_build_header -> asn_parse_header */
+        dl = 16;
+        __CPROVER_assume(0 <= len && len <= 0xFFFF);
+        __CPROVER_assume((type & 0x1F) != 0x1F);
+        u_char *e = asn_build_header_with_truth(buf, &dl, type, len, truth);
+        __CPROVER_assert(e != NULL && e - buf == 16 - dl, "round trip: header built");
+        int V = (int)(e - buf) + len;   /* pretend len content octets follow; asn_parse_header does not read them */
+        int pdl = V;
+        u_char *r = asn_parse_header(buf, &pdl, &t2);
+        __CPROVER_assert(r == e && pdl == len && t2 == type, "round trip: parse_header(build_header(type, n)) == (type, n), same extent");
+    } else if (which == 2) {    /* asn_build_int -> asn_parse_int */
+        int x, y = 0; dl = 16;
+        u_char *e = asn_build_int(buf, &dl, type, &x, sizeof(x));
+        __CPROVER_assert(e != NULL && e - buf == 16 - dl && e - buf <= 6, "round trip: INTEGER built in at most 6 octets");
+        int pdl = 16 - dl;
+        u_char *r = asn_parse_int(buf, &pdl, &t2, &y, sizeof(y));
+#ifdef TWIN_ROUNDTRIP
+        __CPROVER_assert(!(r == e && pdl == 0 && y == x && t2 == type), "round trip: TWIN (negated)");
+#else
+        __CPROVER_assert(r == e && pdl == 0 && y == x && t2 == type, "round trip: parse_int(build_int(x)) == x, consumes exactly the encoding");
+#endif
+#ifdef REACH
+        __CPROVER_assert(!(x == -129), "reach: negative value needing two octets");
+        __CPROVER_assert(!(x == 0x7FFFFFFF), "reach: INT_MAX");
+#endif
+    } else {                    /* asn_build_unsigned_int -> asn_parse_unsigned_int */
+        u_int x, y = 0; dl = 16;
+        u_char *e = asn_build_unsigned_int(buf, &dl, type, &x, sizeof(x));
+        __CPROVER_assert(e != NULL && e - buf == 16 - dl && e - buf <= 7, "round trip: unsigned built in at most 7 octets");
+        int pdl = 16 - dl;
+        u_char *r = asn_parse_unsigned_int(buf, &pdl, &t2, &y, sizeof(y));
+        __CPROVER_assert(r == e && pdl == 0 && y == x && t2 == type, "round trip: parse_unsigned_int(build_unsigned_int(x)) == x, consumes exactly the encoding");
+#ifdef REACH
+        __CPROVER_assert(!(x == 0xFFFFFFFFu), "reach: UINT_MAX (five content octets)");
+#endif
+    }
+}
+#endif
+
 #ifdef T_PDU_DECODE
 void h_pdu_decode(void)
 {
